@@ -153,6 +153,21 @@ def p2p3(chk, prog, lens):
                   'every length the length function can return is handled', f.loc())
 
 
+def forwards_all(f, c):
+    """the call hands over exactly the dispatcher's own parameters, in order, none defaulted"""
+    from ..rules import call_args
+    args = call_args(c)
+    if len(args) != len(f.params):
+        return False, 'passes %d arguments for %d parameters' % (len(args), len(f.params))
+    for p, a in zip(f.params, args):
+        if a.get('defarg'):
+            return False, 'parameter %s is not forwarded (the callee\'s default is used)' % p['name']
+        names = [x['ref']['name'] for x in walk(a) if x.get('k') == 'DeclRefExpr' and x['ref'].get('sto') == 'param']
+        if names != [p['name']]:
+            return False, 'argument for %s is built from %s' % (p['name'], names)
+    return True, ''
+
+
 def p3_dispatch(chk, prog):
     # detail::(grouped)intNNtoString( [buffer,] value [, group_char])
     n = 0
@@ -216,6 +231,9 @@ def p3_dispatch(chk, prog):
                 s = q.split('::')[-1]
                 same = str(bits) in s and (s.startswith('grouped') == f.short.startswith('grouped'))
                 chk.check(same, 'P3', f.name, 'dispatches to the variant of the same width (%s)' % s, f.loc(c))
+                ok, why = forwards_all(f, c)
+                chk.check(ok, 'P3', f.name, 'forwards buffer, value and group character unchanged to %s' % s,
+                          f.loc(c), why)
     chk.require(n >= 16, 'only %d signed dispatchers found' % n)
     # public templates: width by sizeof, signedness by type
     m = 0
@@ -234,6 +252,8 @@ def p3_dispatch(chk, prog):
             want = ('grouped' if f.short.startswith('grouped') else '') + ('Int' if signed else 'Uint') + \
                 str(bits) + 'toString'
             good = s.lower() == want.lower()
+            if good:
+                good, _ = forwards_all(f, cs[0])
         chk.check(good, 'P3', f.name, 'int2string<%s> selects the %d-bit %s conversion [%s]' % (
             vt, bits, 'signed' if signed else 'unsigned', 'buffer' if buffer_variant else 'string'), f.loc())
     chk.require(m >= 32, 'only %d public dispatcher instantiations found' % m)
